@@ -3,8 +3,8 @@ From HL Require Export Lib.Bytes Lib.Judge Model.WsIndex.
 Open Scope N_scope.
 
 (* index level: after every operation the aggregated counters (all maps flattened with a kind
-   prefix), the derived key lists (flattened likewise) and the payee-template keys *)
-Record isnap := mkSnap { s_counts : cmap; s_derived : list (list N); s_templates : list (list N) }.
+   prefix), the derived key lists (flattened likewise) and the payee-template table (payee, fingerprint of the posting list) *)
+Record isnap := mkSnap { s_counts : cmap; s_derived : list (list N); s_templates : tmap }.
 (* workspace level: per update step, a bit mask of the view components that differ between the
    incrementally maintained workspace and a fresh one (bit 0 members, 1 counters and lists,
    2 transaction index, 3 payee templates, 4 declared accounts/commodities, 5 commodity formats) *)
@@ -19,6 +19,10 @@ Definition same_counts (m : cmap) (o : cmap) : bool :=
 Definition same_set (a b : list (list N)) : bool :=
   forallb (fun x => existsb (beq x) b) a && forallb (fun x => existsb (beq x) a) b.
 
+Definition same_tmap (a b : tmap) : bool :=
+  Nat.eqb (length a) (length b) &&
+  forallb (fun kv => option_eqb N.eqb (alookup (fst kv) a) (Some (snd kv))) b.
+
 (* derived lists = keys with a positive aggregate, except tag values ('V'), whose derived form
    is not part of the flattened lists *)
 Definition derived_of (m : cmap) : list (list N) :=
@@ -30,18 +34,17 @@ Fixpoint tie_from (w : wsindex) (l : list (wop * isnap)) : bool :=
   | (o, s) :: r =>
       let w' := wstep w o in
       same_counts (wi_counts w') (s_counts s) && same_set (derived_of (wi_counts w')) (s_derived s) &&
-      same_set (wi_templates w') (s_templates s) && tie_from w' r
+      same_tmap (wi_templates w') (s_templates s) && tie_from w' r
   end.
 Definition tie_ok (c : case) : bool := tie_from winit (iops c).
 
 Definition oracle_ok (c : case) : bool := forallb (fun m => m =? 0) (ws_masks c).
 
-(* class 1: only the payee-template key set (bit 3) differs; class 2: the commodity formats
-   (bit 5) differ, possibly together with the templates *)
+(* class 2: only the commodity formats (bit 5) differ. (Class 1, the payee templates, was
+   repaired in /repo 8a0a0e8: a template difference is a violation again.) *)
 Definition known (c : case) : N :=
   if forallb (fun m => m =? 0) (ws_masks c) then 0
-  else if forallb (fun m => (m =? 0) || (m =? 8)) (ws_masks c) then 1
-  else if forallb (fun m => (m =? 0) || (m =? 8) || (m =? 32) || (m =? 40)) (ws_masks c) then 2
+  else if forallb (fun m => (m =? 0) || (m =? 32)) (ws_masks c) then 2
   else 0.
 
 Definition judge_all := judge_with tie_ok oracle_ok known.
